@@ -455,6 +455,16 @@ def pdg_name_route(p, mothers, limit=6):
             except Exception as e:  # noqa: BLE001
                 out.append(("tables:by-pdg-name:raised", f"{m} asked as {pdg!r} with pdg_name=True: {type(e).__name__}: {e}"))
                 continue
+            if pdg != m and pdg not in mothers:
+                # ... and the PDG spelling is a name of its own only with the flag: without it, it names no table of this file
+                try:
+                    with warnings.catch_warnings():
+                        warnings.simplefilter("ignore")
+                        c = p.list_decay_modes(pdg)
+                except Exception:  # noqa: BLE001   (the library's not-found error)
+                    c = None
+                if c is not None:
+                    out.append(("tables:by-pdg-name:spelling-answers-without-the-flag", f"list_decay_modes({pdg!r}) = {c!r} although no table of the file carries that name (asked with pdg_name=True before)"))
             if a != b:
                 out.append(("tables:by-pdg-name:differs", f"list_decay_modes({pdg!r}, pdg_name=True) = {b!r}, list_decay_modes({m!r}) = {a!r}"))
             elif pa.getvalue() != pb.getvalue():
